@@ -265,7 +265,19 @@ func (p *Packer) packWalkFn(root, src, dst string, tarW *tar.Writer, meta *Meta,
 			}
 
 			// Check if the symlink's target falls within the root.
-			if ok, err := p.validSymlink(root, path, target); ok {
+			ok, err := p.validSymlink(root, path, target)
+			if ok && src != dst {
+				// This link lives in a dereferenced directory, so it is stored at
+				// a different position than the one its target was validated
+				// against. It can only remain a link if it is relative and stays
+				// inside that directory; otherwise it no longer points to the
+				// same place (or points outside the archive root).
+				ok = false
+				if !filepath.IsAbs(target) {
+					ok, err = p.validSymlink(src, path, target)
+				}
+			}
+			if ok {
 				// We can simply copy the link.
 				header.Typeflag = tar.TypeSymlink
 				header.Linkname = filepath.ToSlash(target)
